@@ -1284,6 +1284,63 @@ fn part_c_probes(root: &Path, st: &mut Stats) {
     }
 }
 
+/// nested function declarators: a function / typedef / member / parameter whose type is a function returning a
+/// pointer to function written without a typedef.  Every level has its own parameter list; the Rust caller is
+/// written from the C declaration (literal argument counts, hand-written callback types), so a binding that gives
+/// a level the parameters of another level does not compile, and one that compiles is run against the C side.
+fn part_c_nested(args: &Args, root: &Path, st: &mut Stats) {
+    let mut r = Rng::new(args.seed ^ 0x9E57ED);
+    const TYS: &[(&str, &str)] = &[("int", "::std::os::raw::c_int"), ("long", "::std::os::raw::c_long"), ("char", "::std::os::raw::c_char"),
+        ("short", "::std::os::raw::c_short"), ("double", "f64"), ("unsigned", "::std::os::raw::c_uint"), ("long long", "::std::os::raw::c_longlong")];
+    let rounds = if args.thorough() { 40 } else { 6 };
+    for k in 0..rounds {
+        // fixed shapes first: outer longer than inner, inner longer than outer, one level empty
+        let (np, nq) = match k { 0 => (3, 1), 1 => (1, 2), 2 => (0, 1), 3 => (2, 0), _ => (r.below(5) as usize, r.below(4) as usize) };
+        let ps: Vec<usize> = (0..np).map(|_| r.below(TYS.len() as u64) as usize).collect();
+        let qs: Vec<usize> = (0..nq).map(|_| r.below(TYS.len() as u64) as usize).collect();
+        let named = r.below(2) == 0;
+        let list = |v: &[usize], pre: &str, names: bool| if v.is_empty() { "void".to_string() } else {
+            v.iter().enumerate().map(|(i, t)| if names { format!("{} {pre}{i}", TYS[*t].0) } else { TYS[*t].0.to_string() }).collect::<Vec<_>>().join(", ") };
+        let (pl, ql) = (list(&ps, "p", named), list(&qs, "q", named));
+        let (pln, qln) = (list(&ps, "p", true), list(&qs, "q", true));
+        let n = format!("c04nd{k}");
+        let header = format!("long (*{n}_get({pl}))({ql});\ntypedef long (*(*{n}_td)({pl}))({ql});\nextern {n}_td {n}_ptr;\nstruct {n}_s {{ int tag; long (*(*m)({pl}))({ql}); }};\nstruct {n}_s {n}_mk(void);\nlong {n}_take(long (*(*cb)({pl}))({ql}));\nlong {n}_acc(void);\n");
+        let wsum = |pre: &str, cnt: usize, base: i64| (0..cnt).map(|i| format!("{} * (long){pre}{i}", i as i64 + base)).collect::<Vec<_>>().join(" + ");
+        let psum = if np == 0 { "0".to_string() } else { wsum("p", np, 2) };
+        let qsum = if nq == 0 { "0".to_string() } else { wsum("q", nq, 5) };
+        let pargs_c = (0..np).map(|i| format!("({}){}", TYS[ps[i]].0, 3 + i)).collect::<Vec<_>>().join(", ");
+        let qargs_c = (0..nq).map(|i| format!("({}){}", TYS[qs[i]].0, 11 + i)).collect::<Vec<_>>().join(", ");
+        let csrc = format!("static long acc;\nstatic long {n}_leaf({qln}) {{ return 1000 + {qsum}; }}\nlong (*{n}_get({pln}))({ql}) {{ acc = {psum}; return {n}_leaf; }}\n{n}_td {n}_ptr = {n}_get;\nstruct {n}_s {n}_mk(void) {{ struct {n}_s s; s.tag = 1; s.m = {n}_get; return s; }}\nlong {n}_take(long (*(*cb)({pl}))({ql})) {{ return cb({pargs_c})({qargs_c}); }}\nlong {n}_acc(void) {{ return acc; }}\n");
+        let pv: Vec<i64> = (0..np).map(|i| 3 + i as i64).collect();
+        let qv: Vec<i64> = (0..nq).map(|i| 11 + i as i64).collect();
+        let pexp: i64 = pv.iter().enumerate().map(|(i, v)| (i as i64 + 2) * v).sum();
+        let qexp: i64 = 1000 + qv.iter().enumerate().map(|(i, v)| (i as i64 + 5) * v).sum::<i64>();
+        let pa = pv.iter().map(|v| format!("{v} as _")).collect::<Vec<_>>().join(", ");
+        let qa = qv.iter().map(|v| format!("{v} as _")).collect::<Vec<_>>().join(", ");
+        let rs_params = |v: &[usize], pre: &str| v.iter().enumerate().map(|(i, t)| format!("{pre}{i}: {}", TYS[*t].1)).collect::<Vec<_>>().join(", ");
+        let rs_sum = |pre: &str, cnt: usize, base: i64| if cnt == 0 { "0".to_string() } else { (0..cnt).map(|i| format!("{} * ({pre}{i} as i64)", i as i64 + base)).collect::<Vec<_>>().join(" + ") };
+        let body = format!(
+            "unsafe extern \"C\" fn rs_leaf({}) -> ::std::os::raw::c_long {{ (2000 + {}) as _ }}\n\
+             unsafe extern \"C\" fn rs_cb({}) -> ::std::option::Option<unsafe extern \"C\" fn({}) -> ::std::os::raw::c_long> {{ RS_ACC = {}; Some(rs_leaf) }}\n\
+             static mut RS_ACC: i64 = 0;\n\
+             let a = {n}_get({pa}).unwrap()({qa}); let a2 = {n}_acc();\n\
+             let b = {n}_ptr.unwrap()({pa}).unwrap()({qa});\n\
+             let c = {n}_mk().m.unwrap()({pa}).unwrap()({qa});\n\
+             let d = {n}_take(Some(rs_cb)); let d2 = RS_ACC;\n\
+             println!(\"R {{}} {{}} {{}} {{}} {{}} {{}}\", a, a2, b, c, d, d2);",
+            rs_params(&qs, "q"), rs_sum("q", nq, 5), rs_params(&ps, "p"), qs.iter().map(|t| TYS[*t].1).collect::<Vec<_>>().join(", "), rs_sum("p", np, 2));
+        let expect = format!("R {qexp} {pexp} {qexp} {qexp} {} {pexp}", qexp + 1000);
+        let pname = format!("probe_nested_{k}");
+        if let Some((_inv, _pred, ro)) = probe(&pname, &header, &csrc, &body, CbMode::None, root, st) {
+            st.bump("nested_declarator_cases", 1);
+            if let Some(e) = &ro.clang_err { st.fail("oracle", "generator-c-invalid", format!("nested declarators: clang rejects the generated C: {}", e.chars().take(600).collect::<String>()), &pname); continue; }
+            if ro.stdout.trim() != expect {
+                st.fail("oracle", "nested-declarator", format!("header {header:?}: expected output {expect:?}, got {:?}; rustc/link error: {:?}", ro.stdout.trim(), ro.rustc_err.as_ref().map(|e| e.chars().take(600).collect::<String>())), &pname);
+            } else { st.distinct.insert(format!("probe:nested:p{np}:q{nq}:named{}", named as u8)); }
+        }
+    }
+}
+
 struct TFn { name: String, cc: &'static str, attr: &'static str, params: Vec<&'static str> }
 
 fn argbytes(params: &[&str]) -> u64 {
@@ -1477,7 +1534,7 @@ fn main() {
     let only: Option<String> = args.extra.iter().find_map(|a| a.strip_prefix("--only=").map(|s| s.to_owned()));
     let want = |p: &str| only.as_deref().map_or(true, |o| o.split(',').any(|x| x == p));
     if want("a") { part_a(&args, &mut st); }
-    if want("c") { part_c_probes(&root, &mut st); part_c_targets(&args, &root, &mut st); }
+    if want("c") { part_c_probes(&root, &mut st); part_c_nested(&args, &root, &mut st); part_c_targets(&args, &root, &mut st); }
     if want("cpp") { part_cpp(&args, &root, &mut st); }
     if want("b") { part_b(&args, &root, &mut st); }
     let mut j = String::from("{\n");
